@@ -50,7 +50,7 @@ theorem restore_reproduces (c : Codec) (hc : c.Lawful) (cfg : Cfg) (hl : cfg.leg
   have h1 : Inv W₁ := inv_run c hl inv_init pre
   have h2 : Inv (checkpoint c cfg W₁).1 := inv_step c hl h1 .checkpoint
   have ht : Tracks i (c.ser (live W₁.store W₁.clock)) W₃ :=
-    tracks_run c hl hf h2 (tracks_new c hl hf h1) post
+    tracks_run c hl hf h2.toR (tracks_new c hl hf h1.toR) post
   obtain ⟨_, hcase⟩ := ht
   have hnd := live_nodup W₁.clock h1.store_nodup
   constructor
@@ -150,7 +150,7 @@ theorem crash_preserves_earlier (c : Codec) (cfg : Cfg) (hl : cfg.legacy = false
     | none => rfl
     | some x =>
       have := hinv.fs_seq (newId cfg W) (by rw [hfs]; simp)
-      rw [newId_fixed hl] at this; simp at this
+      rw [newId_fixed hl hinv.fs_seq] at this; simp at this
   · intro e he
     unfold crashFs
     apply prefix_inv (fun fs => fget fs e = fget W.fs e
